@@ -306,6 +306,20 @@ pub fn run_case(ctx: &mut Ctx, case: &Value, every_target: bool) {
         if nested { ctx.report.bump("defect-inside-disclosure"); }
         ctx.report.nontrivial_case(&json!([case["tree"], kind, target]));
         three_entries(ctx, &token, false, &c2, &def.detail);
+        // a defect of the signed payload itself is there whatever is presented: also with no disclosure at all
+        // (a repeated digest only if both embeddings are in the payload: one inside a hidden claim is not there to see)
+        let twice_in_payload = {
+            let dg = ic.spec_disc(target)["digest"].as_str().unwrap_or("").to_string();
+            let text = serde_json::to_string(&def.payload).unwrap_or_default();
+            !dg.is_empty() && text.matches(&format!("\"{}\"", dg)).count() >= 2
+        };
+        if matches!(kind.as_str(), "sd-not-array-payload" | "placeholder-extra-payload" | "sd-alg") || (matches!(kind.as_str(), "digest-twice" | "digest-twice-in-arrays") && twice_in_payload) {
+            let mut c3 = c2.clone();
+            c3["no_disclosures"] = json!(true);
+            real::set_current(&c3);
+            ctx.report.bump(&format!("defect:{}:no-disclosures-presented", kind));
+            three_entries(ctx, &format!("{}~", jwt), false, &c3, &def.detail);
+        }
         // the independent verifier must reject it too (otherwise the seeded defect is not one)
         if kind != "sd-alg" {
             let resp = restore_op(ctx, &ic.sd_alg, &def.payload, &def.discs);
@@ -317,7 +331,7 @@ pub fn run_case(ctx: &mut Ctx, case: &Value, every_target: bool) {
 }
 
 pub fn run(ctx: &mut Ctx, replay: Option<&Value>) {
-    ctx.report.rule = "reference-issued unbound tokens (Lean spec issuer) given exactly one defect, validly signed: disclosure of wrong arity for its place / not an array / arity 0,1,4; name not a string / reserved; name equal to a sibling member; a digest embedded twice (in `_sd`, or in two array placeholders); _sd not an array and placeholder with extra members (in the payload at a random object/array at any depth, and inside a disclosure's value); unsupported _sd_alg (other types, unregistered names, look-alikes of the registered names: leading zeros / sign / case / blanks / unicode hyphen); target mark random (thorough: every mark); all disclosures presented; Verifier::verify, Holder::verify, Holder::presentation must all return Err and accept the twin; non-trivial = distinct (tree, defect kind, target)".to_string();
+    ctx.report.rule = "reference-issued unbound tokens (Lean spec issuer) given exactly one defect, validly signed: disclosure of wrong arity for its place / not an array / arity 0,1,4; name not a string / reserved; name equal to a sibling member; a digest embedded twice (in `_sd`, or in two array placeholders); _sd not an array and placeholder with extra members (in the payload at a random object/array at any depth, and inside a disclosure's value); unsupported _sd_alg (other types, unregistered names, look-alikes of the registered names: leading zeros / sign / case / blanks / unicode hyphen); target mark random (thorough: every mark); all disclosures presented (payload-level defects also with none); Verifier::verify, Holder::verify, Holder::presentation must all return Err and accept the twin; non-trivial = distinct (tree, defect kind, target)".to_string();
     if let Some(case) = replay {
         run_case(ctx, case, false);
         return;
